@@ -241,7 +241,7 @@ func TestC14RowBoundary(t *testing.T) {
 		m := &regMachine{model: map[int]*conn{}, loop: rapid.IntRange(0, 255).Draw(t, "loop")}
 		m.cm.init()
 		base := rapid.IntRange(3, 1000).Draw(t, "base")
-		n := 65536 + rapid.SampledFrom([]int{-2, -1, 0, 1, 2, 100, 4000}).Draw(t, "over")
+		n := 65536*rapid.SampledFrom([]int{1, 1, 1, 2}).Draw(t, "rows") + rapid.SampledFrom([]int{-2, -1, 0, 1, 1, 1, 2, 100, 4000}).Draw(t, "over")
 		m.logf("bulk add %d fds from %d", n, base)
 		for i := 0; i < n; i++ {
 			m.add(base + i)
@@ -249,7 +249,7 @@ func TestC14RowBoundary(t *testing.T) {
 		m.invariant(t, false)
 		steps := rapid.IntRange(3, 12).Draw(t, "steps")
 		for s := 0; s < steps; s++ {
-			switch rapid.SampledFrom([]string{"delLast", "delFirst", "delNearBoundary", "delRandom", "add", "add"}).Draw(t, "op") {
+			switch rapid.SampledFrom([]string{"delLast", "delFirst", "delNearBoundary", "delRandom", "add", "add", "add", "add"}).Draw(t, "op") {
 			case "delLast":
 				m.logf("del last (fd %d)", m.order[len(m.order)-1].fd)
 				m.del(t, len(m.order)-1)
@@ -257,7 +257,7 @@ func TestC14RowBoundary(t *testing.T) {
 				m.logf("del first (fd %d)", m.order[0].fd)
 				m.del(t, 0)
 			case "delNearBoundary":
-				i := 65536 + rapid.IntRange(-3, 3).Draw(t, "off")
+				i := 65536*rapid.IntRange(1, 2).Draw(t, "row") + rapid.IntRange(-3, 3).Draw(t, "off")
 				if i >= len(m.order) {
 					i = len(m.order) - 1
 				}
@@ -268,11 +268,11 @@ func TestC14RowBoundary(t *testing.T) {
 				m.logf("del #%d (fd %d) of %d", i, m.order[i].fd, len(m.order))
 				m.del(t, i)
 			default:
-				fd := base + n + s + 100000
+				fd := base + n + s + 200000
 				m.logf("add(%d)", fd)
 				m.add(fd)
 			}
-			m.invariant(t, false)
+			m.invariant(t, true)
 		}
 		m.invariant(t, true)
 		m.iterateCheck(t)
